@@ -47,6 +47,8 @@ for p in "$here"/seeded/*/patch.diff; do
   [ -e "$p" ] || continue
   id=$(basename "$(dirname "$p")")
   case "$id" in "$filter"*) ;; *) [ -n "$filter" ] && continue;; esac
+  # a seeded change that stopped being a violation after a repair of the tree is kept for the record, not as a must-fail case
+  if grep -q '"obsolete"' "$(dirname "$p")/meta.json" 2>/dev/null; then echo "skipped  seeded-$id: no longer a violation on the repaired tree (meta.json: obsolete)" > "$tmpout/o$id.out"; continue; fi
   n=$((n+1))
   ( run_one mutants "$p" > "$tmpout/$n.out" 2>&1; echo $? > "$tmpout/$n.rc" ) &
   while [ "$(jobs -r | wc -l)" -ge "$jobs" ]; do sleep 1; done
